@@ -284,7 +284,11 @@ def protected(sc: dict) -> List[str]:
     NIC-disabled device is included: its own state must not change either)."""
     m = sc["block"]
     if m in ("router_deny_dst_b_only", "fw_deny_dst_b_only"):
-        return ["B"]  # the rule protects B alone: D and SW2 are reached by permitted traffic, by design
+        return ["B"]
+    if m in WC_ROUTER:
+        m = "router_deny_anyany"   # same cut: the router `at` is the barrier
+    if m in WC_FW:
+        m = "fw_first_stage_deny"  # same cut: the firewall is the barrier  # the rule protects B alone: D and SW2 are reached by permitted traffic, by design
     es = edges(sc)
     names = sorted({x for e in es for x in e})
     removed, barrier = [], []
@@ -364,6 +368,15 @@ def class_patterns(sc: dict, info: dict) -> List[dict]:
         return [pat(proto="tcp"), pat(proto="udp"), pat(proto="icmp"), pat(proto="none")]
     if m == "fw_deny_dst_b_only":
         return [pat(dst_ip=info["b_ip"])]
+    if m.endswith("_wc_host_allowlist"):
+        # everything A's side can send with its own addresses (the allow-listed address is nobody's)
+        return [pat(src_ip=info["a_ip"]), pat(src_ip=info["a_ip"].rsplit(".", 1)[0] + ".11")]
+    if m.endswith("_wc_anywc"):
+        return [pat(src_ip="0.0.0.0", src_wc="255.255.255.255")]
+    if m.endswith("_wc_hostwc"):
+        return [pat(dst_ip=info["b_ip"], dst_wc="0.0.0.0"), pat(dst_ip=info["b_ip"], dst_wc="0.0.0.255")]
+    if m.endswith("_wc_noncontig"):
+        return [pat(src_ip=info["a_ip"], src_wc="0.0.0.5")]
     return [pat()]
 
 
@@ -414,7 +427,7 @@ def roles_for(sc: dict) -> Dict[str, str]:
         "fw_port_a_disabled": {"FW": "frozen"}, "fw_port_b_disabled": {"FW": "ifaceDown"},
         "fw_first_stage_deny": {"FW": "fwDeny"}, "fw_first_stage_empty": {"FW": "fwDeny"}, "fw_second_stage_deny": {"FW": "fwDeny"},
         "fw_deny_dst_b_only": {"FW": "fwDeny"},
-    }.get(m, {at: "routerDeny"} if m.startswith("router_deny") else {})
+    }.get(m, {at: "routerDeny"} if (m.startswith("router_deny") or m in WC_ROUTER) else {"FW": "fwDeny"} if m in WC_FW else {})
 
 
 def topo_lines(sc: dict, sim, N, prot: List[str], info: Optional[dict] = None) -> List[str]:
@@ -540,7 +553,8 @@ def expect_certified_b(sc: dict) -> Optional[str]:
     router, a firewall's first list, or the second list the code selects for B's address (from the DMZ the selection is opaque: both
     candidate lists would have to deny).  `None`: no expectation (blocks by disabled interfaces, power, missing links)."""
     m = sc["block"]
-    if m in ("router_deny_anyany", "router_deny_dst_exact", "router_deny_four_protocols", "fw_first_stage_deny", "fw_first_stage_empty"):
+    if m in ("router_deny_anyany", "router_deny_dst_exact", "router_deny_four_protocols", "fw_first_stage_deny", "fw_first_stage_empty",
+             "router_wc_hostwc"):  # DENY dst B wildcard 0.0.0.0: "host B" under the real wildcard semantics (Model/Acl.ipMatches)
         return "certifiedB"
     if m in ("router_deny_src_exact", "router_deny_src_range", "router_deny_three_protocols"):
         return "uncertifiedB"
@@ -556,8 +570,10 @@ def expect_certified_n(sc: dict, prot: List[str]) -> str:
     routers are accepted when the class covers their addresses."""
     roles = roles_for(sc)
     names = sorted({x for e in edges(sc) for x in e})
-    if sc["block"] in ("router_deny_dst_exact", "router_deny_three_protocols", "router_deny_four_protocols"):
+    if sc["block"] in ("router_deny_dst_exact", "router_deny_three_protocols", "router_deny_four_protocols", "router_wc_hostwc"):
         return "uncertifiedN"
+    if sc["block"] in WC_FW and sc.get("stage") == "second":
+        return "certifiedN-fw2"
     for h in names:
         role = roles.get(h, "interior")
         side = (h not in prot) or role != "interior"
@@ -575,6 +591,15 @@ def expect_certified_n(sc: dict, prot: List[str]) -> str:
 
 
 DEFENDER_OPS = {"dev_if_enable"}
+# rule-list blocks written with WILDCARD MASKS, boundary values included (C07_wildcard_spec: bit set = ignored):
+#   *_anywc         DENY src 0.0.0.0 wildcard 255.255.255.255  (Cisco "any")
+#   *_hostwc        DENY dst B wildcard 0.0.0.0 ("host B") + DENY dst B's subnet wildcard 0.0.0.255 (contiguous)
+#   *_host_allowlist  the PERMIT-all rule removed, implicit DENY, PERMIT src <an address nobody has> wildcard 0.0.0.0 (host-only allow-list)
+#   *_noncontig     DENY src A wildcard 0.0.0.5 (non-contiguous; matches .10 .11 .14 .15 = A and C)
+WC_ROUTER = {"router_wc_anywc", "router_wc_hostwc", "router_wc_host_allowlist", "router_wc_noncontig"}
+WC_FW = {"fw_wc_anywc", "fw_wc_host_allowlist", "fw_wc_noncontig"}
+NOBODY = "10.0.77.77"
+ORACLE_ONLY = ("router_deny_dst_b_only", "fw_deny_dst_b_only", "router_wc_host_allowlist", "fw_wc_host_allowlist")
 OFF_DEVICE = {"sw2_off": "SW2", "sw1_off": "SW1", "b_off": "B", "fw_off": "FW"}
 
 
@@ -724,6 +749,33 @@ def apply_block(sc: dict, sim, N, info, timestep_fn):
         r = N[sc.get("at", "R2")]
         wap = r.wireless_access_point
         r.configure_wireless_access_point(wap.ip_address, wap.subnet_mask, AirSpaceFrequency._registry["WIFI_5"])
+    elif m in WC_ROUTER or m in WC_FW:
+        if m in WC_ROUTER:
+            lst = N[sc.get("at", "R1")].acl
+        else:
+            fw = N["FW"]
+            first = {"ext": fw.external_inbound_acl, "int": fw.internal_outbound_acl, "dmz": fw.dmz_outbound_acl}[sc["a_zone"]]
+            second = {"ext": fw.external_outbound_acl, "int": fw.internal_inbound_acl, "dmz": fw.dmz_inbound_acl}[sc["b_zone"]]
+            lst = first if sc.get("stage", "first") == "first" else second
+        a_ip = info["a_ip"]
+        kind = m.split("_wc_")[1]
+        if kind == "anywc":
+            lst.add_rule(action=ACLAction.DENY, src_ip_address="0.0.0.0", src_wildcard_mask="255.255.255.255", position=pos)
+        elif kind == "hostwc":
+            lst.add_rule(action=ACLAction.DENY, dst_ip_address=b_ip, dst_wildcard_mask="0.0.0.0", position=pos)
+            lst.add_rule(action=ACLAction.DENY, dst_ip_address=b_ip, dst_wildcard_mask="0.0.0.255", position=pos + 1)
+        elif kind == "host_allowlist":
+            lst.remove_rule(10)
+            if m in WC_ROUTER:
+                # a router's list is born with PERMIT ARP-ports (22) and PERMIT ICMP (23): an allow-list keeps neither (genuine ARP
+                # packets are exempt from the list anyway)
+                lst.remove_rule(22)
+                lst.remove_rule(23)
+            lst.implicit_action = ACLAction.DENY
+            lst.implicit_rule.action = ACLAction.DENY
+            lst.add_rule(action=ACLAction.PERMIT, src_ip_address=NOBODY, src_wildcard_mask="0.0.0.0", position=pos)
+        elif kind == "noncontig":
+            lst.add_rule(action=ACLAction.DENY, src_ip_address=a_ip, src_wildcard_mask="0.0.0.5", position=pos)
     elif m == "router_port_a_disabled":
         N[sc.get("at", "R1")].disable_port(1)
     elif m == "router_port_b_disabled":
@@ -1151,6 +1203,7 @@ def _run_once(sc: dict, with_block: bool, post_ops: List[str], wrappers: bool, p
         at_block = {h: node_obs(N[h]) for h in prot}
         topo = topo_lines(sc, sim, N, prot, info) if (with_block or sc.get("_want_topo")) else []
         to_prot["on"] = True
+        n_err_at_block = len(errors)
         power_trace = []
         dev = N.get(power_device(sc)) if phase else None
         for i, op in enumerate(post_ops):
@@ -1165,7 +1218,7 @@ def _run_once(sc: dict, with_block: bool, post_ops: List[str], wrappers: bool, p
                 # the scenario is built so that A acts at EVERY tick of the window; if the device's states at A's operations are
                 # not the expected ones the scenario does not test what it says (C12 owns the timing itself)
                 errors.append(f"power-trace: {power_trace} expected {want}")
-    return {"pw": pw, "power_trace": power_trace, "obs": {h: node_obs(N[h]) for h in prot}, "at_block": at_block, "topo": topo, "to_prot": to_prot["n"], "to_prot_arp": to_prot["arp"], "log": log, "errors": errors,
+    return {"post_errors": [e for e in errors[n_err_at_block:] if not e.startswith("power-trace")], "pw": pw, "power_trace": power_trace, "obs": {h: node_obs(N[h]) for h in prot}, "at_block": at_block, "topo": topo, "to_prot": to_prot["n"], "to_prot_arp": to_prot["arp"], "log": log, "errors": errors,
             "frame_viol": frame_viol, "closure": closure, "model_ok": model_ok, "model_bad": model_bad[:3]}
 
 
@@ -1200,6 +1253,11 @@ def run_scenario(sc: dict, control: bool = True) -> dict:
         violations.append({"kind": "blocking-element-arp-request-to-protected", "what":
                            f"blocking element sent {attack['to_prot_arp']} ARP requests of its own into the protected side after the "
                            f"block, {idle['to_prot_arp']} when A idles"})
+    for e in sorted(set(attack["post_errors"])):
+        # an exception out of the implementation while A operates against a block that should simply hold (an operation of A, or the
+        # timestep after it: frame processing is synchronous, the exception comes out of a receive path) is itself a failing input
+        violations.append({"kind": "exception-during-operation", "what": f"the implementation raised while A operated against the block: {e}",
+                           "exc": e.split(":")[1].strip() if ":" in e else e})
     for h in prot:
         d = _first_diff(idle["obs"][h], attack["obs"][h], h)
         if d:
@@ -1297,6 +1355,29 @@ def directed_scenarios(rng: Rng) -> List[dict]:
     return out
 
 
+def wildcard_scenarios(rng: Rng) -> List[dict]:
+    """ENUMERATED every run: rule-list blocks written with wildcard masks (both boundary masks, a contiguous and a non-contiguous one) on
+    a router, on both wireless routers, and on each of the firewall's SIX lists (three first-stage, three second-stage)"""
+    tail = ["ping", "data_manip", "db_query_new", "port_scan_tcp", "port_scan_udp", "c_ping", "dos", "port_scan_none", "ftp_send"]
+    out = []
+
+    def mk(**kw):
+        sc = dict({"rule_pos": rng.choice([0, 1, 3]), "pre_ops": [rng.choice(["ping", "db_connect", "tick"])],
+                   "post_ops": [rng.choice(tail) for _ in range(4)]}, **kw)
+        out.append(sc)
+    for b in sorted(WC_ROUTER):
+        mk(family="routed", block=b, routers=1, at="R1")
+    for at in ("R1", "R2"):
+        for b in ("router_wc_anywc", "router_wc_host_allowlist"):
+            mk(family="wireless", block=b, routers=2, at=at)
+    for stage, za, zb in (("first", "ext", "int"), ("first", "int", "ext"), ("first", "dmz", "int"),
+                          ("second", "int", "ext"), ("second", "ext", "int"), ("second", "ext", "dmz")):
+        for b in ("fw_wc_anywc", "fw_wc_host_allowlist"):
+            mk(family="firewall", block=b, a_zone=za, b_zone=zb, stage=stage)
+    mk(family="firewall", block="fw_wc_noncontig", a_zone="ext", b_zone="int", stage="first")
+    return out
+
+
 def wireless_scenarios(rng: Rng) -> List[dict]:
     """ENUMERATED every run: each way the wireless path can be blocked x the wireless router it is done on"""
     tail = ["ping", "data_manip", "db_query_new", "port_scan_tcp", "port_scan_udp", "c_ping", "ping_gw", "dos", "port_scan_none"]
@@ -1318,6 +1399,8 @@ def sig_of(sc: dict, v: dict) -> dict:
     if sc["family"] == "firewall":
         s["a_zone"] = sc.get("a_zone")
         s["b_behind_router"] = bool(sc.get("b_behind_router"))
+    if v["kind"] == "exception-during-operation":
+        s["exc"] = v.get("exc")
     if v["kind"] == "protected-state-changed":
         s["node"] = v["node"]
         s["where"] = v["diff"].split(":")[0].split("/")[1].split("[")[0] if "/" in v["diff"].split(":")[0] else ""
@@ -1331,14 +1414,29 @@ def run(ctx: Ctx):
     rng = ctx.rng.fork("net")
     for k, sc in enumerate(directed_scenarios(ctx.rng.fork("net-directed"))):
         scenarios.append((f"directed:{k}", sc))
+    for k, sc in enumerate(wildcard_scenarios(ctx.rng.fork("net-wildcard"))):
+        scenarios.append((f"wildcard:{k}", sc))
     for k, sc in enumerate(wireless_scenarios(ctx.rng.fork("net-wireless"))):
         scenarios.append((f"wireless:{k}", sc))
     for k, sc in enumerate(transitional_scenarios(ctx.rng.fork("net-transitional"), every_duration=ctx.thorough)):
         scenarios.append((f"transitional:{k}", sc))
-    for k in range(ctx.scale(40, 900)):
+    for k in range(ctx.scale(30, 900)):
         scenarios.append((f"gen:{k}", gen_scenario(rng, max_ops=ctx.scale(6, 10))))
     clean = 0
-    results = [(name, sc, run_scenario(sc, control=True)) for name, sc in scenarios]
+    results, scen_bad = [], []
+    for name, sc in scenarios:
+        try:
+            results.append((name, sc, run_scenario(sc, control=True)))
+        except Exception as e:
+            # the implementation (or the rig) raised OUTSIDE A's operations - while the network was built, the block applied, the state
+            # read: no operation of A to blame; reported as a broken obligation, the other scenarios go on (never an internal error)
+            import traceback
+            tb = traceback.extract_tb(e.__traceback__)
+            scen_bad.append(f"{name} {sc['family']}/{sc['block']}: {type(e).__name__}: {str(e)[:80]} at {tb[-1].filename.split('/')[-1]}:{tb[-1].lineno}")
+            ctx.count(f"net:scenario-raised:{type(e).__name__}")
+    scenarios = [(n, sc) for n, sc, _ in results]
+    ctx.oblige("rig:R-net every scenario could be built, blocked and read on the implementation without an exception", "correspondence",
+               not scen_bad, "; ".join(scen_bad[:5]))
     from harness.lib.core import load_findings, run_driver, sig_matches
     # recorded entries that Ctx.finish handles: open findings (KNOWN-FINDING) and observations (behaviour the stronger-than-the-
     # property oracle of this rig flags although host B is untouched; counted in the evidence, neither violation nor finding)
@@ -1377,11 +1475,14 @@ def run(ctx: Ctx):
         ctx.count(f"net:{'certifiedC' if okc else 'uncertifiedC'}:{sc['block']}")
         ctx.count(f"net:{chunk[-1].split()[0]}:{sc['block']}")
         want_n = expect_certified_n(sc, res["protected"])
-        if chunk[-1].split()[0] != want_n and sc["block"] not in ("router_deny_dst_b_only", "fw_deny_dst_b_only"):
+        if chunk[-1].split()[0] != want_n and sc["block"] not in ORACLE_ONLY:
             certn_bad.append(f"{name} {sc['family']}/{sc['block']}: {chunk[-1]}, expected {want_n}")
         # which theorem covers the scenario, and what it still assumes
         roles = set(roles_for(sc).values())
-        if sc["block"] in ("router_deny_dst_b_only", "fw_deny_dst_b_only"):
+        if sc["block"].endswith("_wc_host_allowlist"):
+            ctx.count("net:theorem:none(host-only allow-list: element-level verdict theorems + oracle; the class scan denyClassCheck does not "
+                      "prove a PERMIT rule for ANOTHER exact source disjoint from the class - certificate incomplete, not unsound)")
+        elif sc["block"] in ("router_deny_dst_b_only", "fw_deny_dst_b_only"):
             ctx.count("net:theorem:none(history scenario: only B is protected; element-level C06_verdict_history_free + oracle)")
         elif chunk[-1] == "certifiedN":
             ctx.count("net:theorem:C06_certifiedN_unchanged:no-hypothesis")
@@ -1397,7 +1498,7 @@ def run(ctx: Ctx):
             ctx.count("net:theorem:none(oracle only: the closure hypothesis of the class theorem does not hold in this run)")
         else:
             ctx.count("net:theorem:C06_certifiedC_unchanged:closure+software-hypotheses")
-        oracle_only = sc["block"] in ("router_deny_dst_b_only", "fw_deny_dst_b_only")  # B alone is protected: no certificate speaks about it
+        oracle_only = sc["block"] in ORACLE_ONLY  # B alone is protected: no certificate speaks about it
         if sc["block"] in CERTIFIABLE and not ok:
             cert_bad.append(f"{name} {sc['family']}/{sc['block']}: {chunk[-3]}")
         if sc["block"] not in CERTIFIABLE and ok:
